@@ -130,21 +130,7 @@ func main() {
 	case "setup":
 		os.Exit(setupMain())
 	case "ctx":
-		var tt []CTok
-		for _, f := range strings.Fields(os.Args[2]) {
-			if f == ")" {
-				tt = append(tt, CTok{Close: true})
-				continue
-			}
-			pp := strings.Split(f, ":")
-			var t CTok
-			fmt.Sscanf(pp[0], "%d", &t.Kind)
-			t.HasPath = strings.Contains(pp[1], "p")
-			t.Explicit = strings.Contains(pp[1], "x")
-			t.Annot = strings.Contains(pp[1], "a")
-			fmt.Sscanf(pp[2], "%d", &t.Name)
-			tt = append(tt, t)
-		}
+		tt := parseCToks(os.Args[2])
 		content, _ := renderCToks(tt)
 		fmt.Println(string(content))
 		r := runCtx(tt)
